@@ -15,8 +15,45 @@ def programs(tier, rnd: random.Random):
     return progs
 
 
+SUBS_SORTED = """
+(* every bundled sub-routine body, instantiated with literals of its parameters' declared types, must be well-sorted in an
+   environment where the shared return slot ret_val is a 64-bit local (that is what every caller reads: UNSIGNED(w, VARL ret_val)) *)
+Definition param_lits (c : config) : list (string * pure) :=
+  flat_map (fun p => if vt_ext (snd p) || vt_void (snd p) then [] else [(fst p, PBv (vt_sg (snd p)) (vt_w (snd p)) 0)]) (cfg_params c).
+Definition sub_sorted (x : string * (body * config * cstmts)) : bool :=
+  let '(_, (b, c, p)) := x in
+  match denote b with
+  | Some e => match wf_effect (rw_of (regs_ss xi p)) (decl_sorts_ss p ++ special_sorts) (subst_eff (param_lits c) e) with Some _ => true | None => false end
+  | None => true
+  end.
+Eval vm_compute in (map sub_sorted sub_bodies).
+"""
+
+
+def extra(ctx):
+    """the sub-routine bodies are effects too: their sorts must fit the callers' (one width for ret_val)"""
+    from . import common, diffrun
+    import re
+    hdr = diffrun.HEADER.format(seeds="[]", fuel=10) + SUBS_SORTED
+    ok, outs, err = common.run_case_files("C10_subs", {"subs": hdr}, timeout=600)
+    if not ok:
+        ctx["res"] and None
+        raise RuntimeError("sub-routine sort check failed to evaluate: " + err[-1500:])
+    vals = [x == "true" for x in re.findall(r"true|false", common.coq_printed_values(outs["subs"])[-1])]
+    subs = [s_ for s_ in (ctx["k2r"].sig or {}).get("subs", []) if "ast" in s_]
+    names = [s_["name"] for s_ in subs]
+    # bodies built on opaque plugin macros have no sort in sem/RzIL.v (app_sort): not decidable here, reported in the evidence
+    opaque = {s_["name"] for s_ in subs if re.search(r"REGFIELD|HEX_GET_CORRESPONDING_CS", s_["body"])}
+    ctx["stats"]["sub_routine_bodies_with_opaque_macros_not_sort_checked"] = sorted(opaque)
+    ctx["stats"]["sub_routine_bodies_sort_checked"] = len(vals)
+    known_subs = {k["witness"].get("sub") for k in ctx["known_codes"].values()} if False else set()
+    for n, v in zip(names, vals):
+        if not v and n not in opaque:
+            ctx["fails"].append(("sub", "bundled sub-routine " + n, ["sorted (sub-routine body, ret_val : 64 bit)"], {"flags": 0}))
+
+
 SPEC = semprop.Spec(
-    prop="C10", programs=programs, oracles=("sorted",),
+    prop="C10", programs=programs, oracles=("sorted",), extra=extra,
     theorems=["C10_refuted_bool_written", "C10_fixed_local_keeps_width", "C10_refuted", "C10_repaired_witnesses"],
     note="programs mixing comparison/logical results with arithmetic, narrow and wide types, compound assignments; wf_effect checks "
          "both arms of every BRANCH/ITE and every loop body",
